@@ -326,6 +326,11 @@ func (v *fnVC) applyCall(in ssa.Instruction, ci calleeInfo, args []*T, st *State
 			}
 			v.callReqHit[k] = true
 			xc := v.exFor(st, v.entry, nil)
+			// the calling function's own parameters stay reachable as NAME_caller when the callee has a
+			// parameter of the same name
+			for pn, pt := range v.params {
+				xc.vars[pn+"_caller"] = pt
+			}
 			for kk, t := range vars {
 				xc.vars[kk] = t
 			}
